@@ -98,6 +98,13 @@ fn parent(args: &Args) {
     run::classify_ends(&ends, &mut out, true);
     let sz = sizes(args.tier);
     let mut extra = Map::new();
+    {
+        let mut dspec = ChildSpec::new("all", args.get_u64("dbg_shards", 32)).timeout(3000).arg("part", args.get("part").unwrap_or("all"));
+        if let Some(v) = args.get("only") {
+            dspec = dspec.arg("only", v);
+        }
+        run::dbg_build_layer(ID, args, vec![dspec], &mut out, &mut extra);
+    }
     extra.insert(
         "routing_table".into(),
         json!({"sinks": NSINKS, "unary_operators": "with_max_level x5 levels, with_min_level x5 levels, with_filter x2 predicates",
